@@ -112,3 +112,23 @@ func H_Dec_Message() {
 	_ = empty
 	vsym.Reach("message-decoded")
 }
+
+// H_C15_MessageRoundTrip: a wire message restored from its own encoding equals the original, also when the decode
+// target is a message that was used before.
+func H_C15_MessageRoundTrip() {
+	m := &protocol.Message{SSID: vsym.Bytes("ssid", 0, 2), From: party.ID(vsym.String("from", 0, 1)), To: party.ID(vsym.String("to", 0, 1)),
+		Protocol: vsym.String("proto", 0, 1), RoundNumber: 3, Data: vsym.Bytes("data", 0, 2), Broadcast: vsym.Bool("b"), BroadcastVerification: vsym.Bytes("bv", 0, 1)}
+	data, err := m.MarshalBinary()
+	vsym.Assert(err == nil, "message serialises")
+	target := &protocol.Message{}
+	if vsym.Choose("reused", 2) == 1 {
+		target = &protocol.Message{SSID: []byte("x"), From: "q", To: "r", Protocol: "old", RoundNumber: 9, Data: []byte("old"), Broadcast: true, BroadcastVerification: []byte("v")}
+	}
+	vsym.Assert(target.UnmarshalBinary(data) == nil, "message restores")
+	same := vsym.And(vsym.BytesEq(target.SSID, m.SSID), vsym.And(vsym.StrEq(string(target.From), string(m.From)), vsym.StrEq(string(target.To), string(m.To))))
+	same = vsym.And(same, vsym.And(vsym.StrEq(target.Protocol, m.Protocol), target.RoundNumber == m.RoundNumber))
+	same = vsym.And(same, vsym.And(vsym.BytesEq(target.Data, m.Data), vsym.And(target.Broadcast == m.Broadcast, vsym.BytesEq(target.BroadcastVerification, m.BroadcastVerification))))
+	vsym.Assert(same, "restored message equals the original")
+	vsym.Assert(vsym.BytesEq(target.Hash(), m.Hash()), "restored message has the same hash")
+	vsym.Reach("message-roundtrip-checked")
+}
